@@ -575,6 +575,25 @@ func C04(tier string) int {
 	for _, w := range wirings {
 		run(newFkScenario(w, plainOwners, widgets, "plain ids"))
 	}
+	// three referrers, and the delete of the target in the same transaction as an earlier change of
+	// the referencing store (the cascade/restrict scan then runs over uncommitted pages)
+	for _, w := range wirings {
+		sc := newFkScenario(w, plainOwners, []string{"w1", "w1x", "w3"}, "3 referrers, 2 ops per tx")
+		var progs [][]int
+		if tier == "quick" {
+			for i, a := range sc.Ops() {
+				progs = append(progs, []int{i})
+				for j, b := range sc.Ops() {
+					if strings.HasPrefix(b.Name, "deleteOwner(") && !strings.HasPrefix(a.Name, "deleteOwner(") {
+						progs = append(progs, []int{i, j})
+					}
+				}
+			}
+		} else {
+			progs = explore.Pairs(len(sc.Ops()))
+		}
+		runE1(rep, sc, explore.Config{Programs: progs})
+	}
 	run(newFkScenario(fkSelfIdxNullable, nil, []string{"w1", "w1x", "w3"}, "plain ids"))
 	selfCascade := newFkScenario(fkSelfCascade, nil, []string{"w1", "w1x", "w3"}, "plain ids")
 	selfCascade.cycleCrash = probeCycleCrashes()
